@@ -14,7 +14,7 @@ class ScriptSock:
     closed connection is observed as non-terminating on a LOGICAL bound, not on wall-clock time.
     """
 
-    def __init__(self, stream: bytes, schedule=None, tail="max", eof_limit=64, on_eof=None):
+    def __init__(self, stream: bytes, schedule=None, tail="max", eof_limit=64, on_eof=None, timeout_at=()):
         self.stream = bytes(stream)
         self.pos = 0
         self.schedule = list(schedule or [])
@@ -26,6 +26,8 @@ class ScriptSock:
         self.closed = False
         self.on_eof = on_eof     # optional callable invoked at the first EOF (C18: sets the thread's exit event)
         self.transitions = []    # (pos_before, returned)
+        self.timeout_at = set(timeout_at)   # stream offsets at which ONE recv raises TimeoutError (an idle read timeout) before data flows again
+        self.timeouts_raised = 0
 
     def recv(self, n, *a):
         if n <= 0:
@@ -40,6 +42,11 @@ class ScriptSock:
             if self.eof_returns > self.eof_limit:
                 raise Abort(f"receiver polled a closed connection {self.eof_returns} times")
             return b""
+        if self.pos in self.timeout_at:
+            self.timeout_at.discard(self.pos)
+            self.timeouts_raised += 1
+            self.calls.append((n, -1))
+            raise TimeoutError("scripted idle read timeout")
         if self.schedule:
             c = self.schedule.pop(0)
         else:
